@@ -87,3 +87,20 @@ func HHistXssT(which int, n int) {
 	}
 	vCover("checked")
 }
+
+// HHistSqliT: an input that tokenizes to nothing (white space, comments, unary operators, parentheses) must get the
+// same answer whatever was analysed before it; and a known attack must still be detected after an arbitrary call.
+func HHistSqliT(which int, n int) {
+	y := [...]string{"1 UNION SELECT 1", "/*!x*/", "1' or 1=1 -- ", "1; drop table a", "x' and 'a'='a", "1 union all select null,null#"}[which] + vNondetString(n)
+	for i := 0; i < 7; i++ {
+		x := [...]string{" ", "(", "-", "-- hello", "/* note */", "", "+ ( -"}[i]
+		b1, f1 := IsSQLi(x)
+		IsSQLi(y)
+		b2, f2 := IsSQLi(x)
+		vAssert(b1 == b2 && f1 == f2, "IsSQLi result does not depend on an intervening call")
+		vAssert(!b2 && f2 == "", "input without tokens is not SQLi, whatever ran before")
+	}
+	b, _ := IsSQLi("1 UNION SELECT 1")
+	vAssert(b, "known attack still detected after an arbitrary earlier call")
+	vCover("checked")
+}
